@@ -2,6 +2,8 @@
 //! Usage: cachelito-replay <scenario>      exit 0 = property held, exit 1 = violated (prints why)
 //!        cachelito-replay --search ...     bounded witness search on the real engines (search.rs)
 //!        cachelito-replay --history FILE   replay a history written by --search under the same oracle
+//!        cachelito-replay --macro-search ...  bounded check of the real #[cache] / #[cache_async] wrappers (macro_search.rs)
+//!        cachelito-replay --macro-scenario NAME  re-run one scenario of --macro-search
 //! Scenarios are the concrete inputs named in /verif/known_findings.txt and in replay files
 //! written by bin/check. Nothing here is a model: every scenario drives /repo's own code.
 use cachelito_core::{AsyncGlobalCache, CacheEntry, CacheStats, EvictionPolicy, GlobalCache, ThreadLocalCache};
@@ -12,6 +14,7 @@ use std::cell::RefCell;
 use std::collections::{HashMap, VecDeque};
 
 mod history;
+mod macro_search;
 mod search;
 
 thread_local! {
@@ -183,6 +186,9 @@ fn main() {
     let args: Vec<String> = std::env::args().collect();
     if args.iter().any(|a| a == "--search") {
         std::process::exit(search::main_search(&args[1..]));
+    }
+    if args.iter().any(|a| a == "--macro-search" || a == "--macro-scenario") {
+        std::process::exit(macro_search::main_macro(&args[1..]));
     }
     if let Some(i) = args.iter().position(|a| a == "--history") {
         let selftest = args.iter().any(|a| a == "--selftest-oracle");
